@@ -7,6 +7,7 @@ CONSTANTS
  TagDels = {1}
  SubjSel = {"same", "ror"}
  Spells = {"dig"}
+ Dopts = {"check"}
  MaxOps = 4
  MaxConc = 2
  SameSubject = TRUE
